@@ -598,6 +598,10 @@ class HierarchyElement(DiagLayer):
         if protocol_name is not None:
             cps = [cp for cp in cps if cp.protocol_snref in (None, protocol_name)]
 
+            # communication parameters which are specific to the
+            # protocol take precedence over generic ones
+            cps.sort(key=lambda cp: cp.protocol_snref is None)
+
         if len(cps) > 1:
             warnings.warn(
                 f"Communication parameter `{cp_short_name}` specified more "
